@@ -152,10 +152,14 @@ def run(ctx):
     so += ["REJ PARSE=? SEM=MODEL-NO-OUTPUT"] * (len(sem_in) - len(so))
     PROPERTY_CLASSES = ("parse", "dup", "undefined-prod", "undefined-regdef", "empty-alt")
     sem_hist = collections.Counter()
+    flag_hist = collections.Counter()
     sem_dis = 0
     for i, ((m, desc, b), (syn_ok, sem)) in enumerate(zip(muts, verdicts)):
         total += 1
-        rc, out, dd = ws.gocc("m%d" % i, m, flags=["-a"], timeout=30)
+        # the verdict must not depend on presentation flags: most files with -a alone, the others with one more flag
+        fl = ["-a"] + ([] if i % 10 < 6 else [["-no_lexer"], ["-zip"], ["-v"], ["-debug_lexer", "-debug_parser"]][i % 4])
+        flag_hist[" ".join(fl)] += 1
+        rc, out, dd = ws.gocc("m%d" % i, m, flags=fl, timeout=30)
         ill = (not syn_ok) or bool(sem)
         hist[("ill-formed" if ill else "well-formed") + "/rc=%s" % rc] += 1
         if ill:
@@ -168,7 +172,7 @@ def run(ctx):
         if gcls in ("timeout", "accept-conflict"):
             if mcls != "accept" and gcls == "accept-conflict" and reported < 3:
                 ctx.violation({"kind": "correspondence-broken", "correspondence": "Sem.front_accepts vs gocc", "file": m.decode("utf-8", "replace")[:800],
-                               "model": so[i], "gocc_exit": rc, "gocc_output": out[-300:]}, found_input=False)
+                               "model": so[i], "gocc_exit": rc, "gocc_flags": fl, "gocc_output": out[-300:]}, found_input=False)
                 reported += 1
                 sem_dis += 1
         elif (mcls == "accept") != (rc == 0):
@@ -181,7 +185,7 @@ def run(ctx):
                 else:
                     ctx.violation({"kind": "correspondence-broken", "correspondence": "Sem.front_accepts (parser on shipped tables && semantic "
                                    "verdict) vs gocc's exit status", "mutation": desc, "file": m.decode("utf-8", "replace")[:800], "model": so[i],
-                                   "gocc_exit": rc, "gocc_output": out[-300:]}, found_input=False)
+                                   "gocc_exit": rc, "gocc_flags": fl, "gocc_output": out[-300:]}, found_input=False)
                 reported += 1
         elif mcls != "accept":
             semr = so[i].split()[2][len("SEM="):] if len(so[i].split()) > 2 else ""
@@ -191,7 +195,7 @@ def run(ctx):
             if reported < 3:
                 ctx.violation({"kind": "property-oracle-on-implementation", "mutation": desc, "file": m.decode("utf-8", "replace"),
                                "why_ill_formed": ("not a sentence of spec/gocc2.ebnf at token level" if not syn_ok else "; ".join(sem)),
-                               "gocc_exit": rc, "gocc_output": out[-300:]})
+                               "gocc_exit": rc, "gocc_flags": fl, "gocc_output": out[-300:]})
                 reported += 1
         elif lines[i] != mlines[i] or (model_acc is not None and model_acc != syn_ok):
             disagreements += 1
@@ -215,7 +219,7 @@ def run(ctx):
                 "symbol, reserved names, string literals clashing with productions or lexical identifiers, duplicate production); unmodified "
                 "bases included; non-trivial = files that are ill-formed by the oracle; distinct files",
         "samples": samples, "programs": len(bases), "verdict_histogram": dict(hist),
-        "front_end_model_vs_gocc": dict(sem_hist), "plain_nonterminals_of_the_spec": [nts[i] for i in obl.get("plain_nonterminals", [])],
+        "front_end_model_vs_gocc": dict(sem_hist), "flags": dict(flag_hist), "plain_nonterminals_of_the_spec": [nts[i] for i in obl.get("plain_nonterminals", [])],
         "traces_validated_against_impl": total, "disagreements": disagreements + sem_dis,
     }, ["the semantic rules are modelled in Front/Sem.v (tied by correspondence on every file of the run, both directions) and, independently, "
         "evaluated by the harness on the real scanner's token stream (undefined production / regular definition, duplicate definition)",
